@@ -19,11 +19,25 @@ from core import F, rs, rl, pr, pl
 PROP = "C12"
 
 
+LAST_CONST = [None]
+
+
 def arg_form(rng, k, whole=None, f32=True):
     """a reduced-phase vector in one of the forms callers use: list of floats (default), list /
     array of whole numbers given as ints (the library's own tests build [0, 0, 0]), float32 array,
     tuple, float64 array.  Returns (object handed to pyqsp, exact float values, form name)."""
     r = rng.random() if whole is None else (0.0 if whole else 1.0)
+    if whole is None and LAST_CONST[0] is not None and rng.random() < 0.5:
+        # a constant vector repeating the value of the previous (constant) one at another length, length 1 included:
+        # "the same numbers" as far as broadcasting goes, a different protocol
+        vals = [LAST_CONST[0]] * k
+        LAST_CONST[0] = vals[0]
+        return list(vals), [float(v) for v in vals], "constant-repeat"
+    if whole is None and rng.random() < 0.12:
+        c = float(rng.choice([0.0, 0.3, -1.1, float(rng.uniform(-2, 2))]))
+        LAST_CONST[0] = c
+        return [c] * k, [c] * k, "constant"
+    LAST_CONST[0] = None
     if r < 0.25:
         vals = [int(v) for v in rng.integers(-3, 4, size=k)] if rng.random() < 0.7 else [0] * k
         form = str(rng.choice(["int-list", "int-array"]))
@@ -48,6 +62,8 @@ def layout_case(ctx, S, rng):
     objs, lists, forms = [], [], []
     for i in range(hist_len + 1):
         k = k0 if (i == 0 or rng.random() < 0.6) else int(rng.integers(1, 61))
+        if LAST_CONST[0] is not None and rng.random() < 0.7:
+            k = int(rng.choice([1, 2, 3, 5]))
         o, v, f = arg_form(rng, k)
         objs.append(o); lists.append(v); forms.append(f)
         ctx.count("argument-form:" + f)
@@ -154,7 +170,7 @@ def history_response_case(ctx, S, rng):
                 ctx.violation("c12:jacobian-after-history:parity=%d" % parity, "after a history the Jacobian routine does not describe the CURRENT phases",
                               {"kind": "history-jacobian", "parity": parity, "trace": trace})
                 return
-        obj, red, form = arg_form(rng, k if rng.random() < 0.7 else int(rng.integers(1, 9)), f32=False)
+        obj, red, form = arg_form(rng, (int(rng.choice([1, 2, 3])) if (LAST_CONST[0] is not None and rng.random() < 0.7) else (k if rng.random() < 0.7 else int(rng.integers(1, 9)))), f32=False)
         k = len(red)
         trace.append(("update", red))
         with core.quiet():
